@@ -71,7 +71,7 @@ def worker(a):
         if m2_:
             out.append(m2_ + " (%s)" % tag)
         c2 = np.array(c2_, dtype=float)
-        if np.abs(c2 - want).max() > 1e-9 * scale:
+        if not np.all(np.isfinite(c2)) or not (np.abs(c2 - want).max() <= 1e-9 * scale):
             out.append("det_coor2 gives pixel %s, the ray from the grain along (2theta, eta) meets the detector at %s (%s)" % (c2.tolist(), want.tolist(), tag))
         lam = 0.4
         Gt = np.array([0.0, 2 * math.pi * f(v[1]) / lam, 2 * math.pi * f(v[2]) / lam])
@@ -79,28 +79,28 @@ def worker(a):
         if m1_:
             out.append(m1_ + " (%s)" % tag)
         c1 = np.array(c1_, dtype=float)
-        if np.abs(c1 - want).max() > 1e-9 * scale:
+        if not np.all(np.isfinite(c1)) or not (np.abs(c1 - want).max() <= 1e-9 * scale):
             out.append("det_coor gives pixel %s for the same ray, expected %s (%s)" % (c1.tolist(), want.tolist(), tag))
-        if np.abs(c1 - c2).max() > 1e-9 * scale:
+        if not (np.abs(c1 - c2).max() <= 1e-9 * scale):
             out.append("det_coor and det_coor2 disagree for the same scattered ray: %s vs %s (%s)" % (c1.tolist(), c2.tolist(), tag))
         lab = np.array(detector.detector_to_lab(f(dety), f(detz), f(L), f(py), f(pz), f(y0), f(z0), Rf), dtype=float)
         Pf = np.array([f(q) for q in P])
-        if np.abs(lab - Pf).max() > 1e-9 * max(1.0, f(L)):
+        if not (np.abs(lab - Pf).max() <= 1e-9 * max(1.0, f(L))):
             out.append("detector_to_lab gives %s, the pixel is at %s in the laboratory (%s)" % (lab.tolist(), Pf.tolist(), tag))
         # the pixel returned by det_coor2, mapped back, lies on the ray from the grain position
         lab2 = np.array(detector.detector_to_lab(c2[0], c2[1], f(L), f(py), f(pz), f(y0), f(z0), Rf), dtype=float)
         w = lab2 - np.array([f(q) for q in pos])
         vf = np.array([f(q) for q in v])
-        if np.abs(np.cross(w, vf)).max() > 1e-9 * max(1.0, f(L)) or w.dot(vf) <= 0:
+        if not (np.abs(np.cross(w, vf)).max() <= 1e-9 * max(1.0, f(L))) or w.dot(vf) <= 0:
             out.append("the pixel of det_coor2 mapped back with detector_to_lab is not on the ray from the grain along the scattered direction (%s)" % tag)
         dv = np.array(detector.det_v(Gt, f(v[0]), lam, f(L), f(py), f(pz), f(y0), f(z0), Rf, 0, 0, 0), dtype=float)
-        if np.abs(dv - vf).max() > 1e-12:
+        if not (np.abs(dv - vf).max() <= 1e-12):
             out.append("det_v gives %s, the scattered direction is %s (%s)" % (dv.tolist(), vf.tolist(), tag))
         for modname in ("tools", "laue"):
             mod = importlib.import_module("xfab." + modname)
             T = np.asarray(mod.detect_tilt(math.atan2(cs["tx"][1], cs["tx"][0]), math.atan2(cs["ty"][1], cs["ty"][0]),
                                            math.atan2(cs["tz"][1], cs["tz"][0])), dtype=float)
-            if np.abs(T - Rf).max() > 1e-12:
+            if not (np.abs(T - Rf).max() <= 1e-12):
                 out.append("xfab.%s.detect_tilt differs from Rx.Ry.Rz by %.3g (%s)" % (modname, float(np.abs(T - Rf).max()), tag))
     except Exception as ex:
         out.append("exception %r (%s)" % (ex, tag))
@@ -143,12 +143,12 @@ def int_worker(a):
         {"int": "Python ints", "np": "numpy integers", "float": "floats"}[how])
     try:
         c2 = np.array(detector.det_coor2(tth, eta, f(L), f(py), f(pz), f(y0), f(z0), Rf, P3[0], P3[1], P3[2]), dtype=float)
-        if np.abs(c2 - want).max() > 1e-9 * scale:
+        if not np.all(np.isfinite(c2)) or not (np.abs(c2 - want).max() <= 1e-9 * scale):
             out.append("det_coor2 gives pixel %s, the ray from the grain meets the detector at %s (%s)" % (c2.tolist(), want.tolist(), tag))
         lam = 0.4
         Gt = np.array([0.0, 2 * math.pi * f(v[1]) / lam, 2 * math.pi * f(v[2]) / lam])
         c1 = np.array(detector.det_coor(Gt, f(v[0]), lam, f(L), f(py), f(pz), f(y0), f(z0), Rf, P3[0], P3[1], P3[2]), dtype=float)
-        if np.abs(c1 - want).max() > 1e-9 * scale:
+        if not np.all(np.isfinite(c1)) or not (np.abs(c1 - want).max() <= 1e-9 * scale):
             out.append("det_coor gives pixel %s, expected %s (%s)" % (c1.tolist(), want.tolist(), tag))
         # integer pixel coordinates into detector_to_lab
         iy, iz = int(round(f(dety))), int(round(f(detz)))
@@ -156,7 +156,7 @@ def int_worker(a):
         Pex = [f((L if i == 0 else 0) + sum(R[i][k] * loc[k] for k in range(3))) for i in range(3)]
         arg = (iy, iz) if how != "np" else (np.int64(iy), np.int64(iz))
         lab = np.array(detector.detector_to_lab(arg[0], arg[1], f(L), f(py), f(pz), f(y0), f(z0), Rf), dtype=float).reshape(-1)
-        if lab.shape != (3,) or np.abs(lab - np.array(Pex)).max() > 1e-9 * max(1.0, f(L)):
+        if lab.shape != (3,) or not (np.abs(lab - np.array(Pex)).max() <= 1e-9 * max(1.0, f(L))):
             out.append("detector_to_lab gives %s for the integer pixel (%d, %d), which is at %s in the laboratory (%s)" % (lab.tolist(), iy, iz, Pex, tag))
     except Exception as ex:
         out.append("exception %r (%s)" % (ex, tag))
@@ -197,11 +197,11 @@ def pipeline_worker(a):
             p1 = np.array(detector.det_coor(Gt, math.cos(twoth), lam, L, py, pz, y0, z0, Rt, pos[0], pos[1], pos[2]), dtype=float)
             p2 = np.array(detector.det_coor2(twoth, eta, L, py, pz, y0, z0, Rt, pos[0], pos[1], pos[2]), dtype=float)
             scale = max(1.0, np.abs(p2).max())
-            if np.abs(p1 - p2).max() > 1e-7 * scale:
+            if not (np.abs(p1 - p2).max() <= 1e-7 * scale):
                 out.append("pipeline: det_coor(Omega.g) = %s and det_coor2(2theta, eta) = %s differ for the same reflection (%s)" % (p1.tolist(), p2.tolist(), tag))
             lab = np.array(detector.detector_to_lab(p2[0], p2[1], L, py, pz, y0, z0, Rt), dtype=float)
             w = lab - np.array(pos)
-            if np.abs(np.cross(w, v)).max() > 1e-7 * max(1.0, L) or w.dot(v) <= 0:
+            if not (np.abs(np.cross(w, v)).max() <= 1e-7 * max(1.0, L)) or w.dot(v) <= 0:
                 out.append("pipeline: the pixel mapped back to the laboratory is not on the ray from the grain along (2theta, eta) (%s)" % tag)
         except Exception as ex:
             out.append("pipeline: exception %r (%s)" % (ex, tag))
@@ -231,6 +231,24 @@ def run(tier, seed):
             for (tx, ty, tz) in rng.sample(small, 4 if tier == "quick" else 18):
                 cases.append({"tx": list(tx), "ty": list(ty), "tz": list(tz), "tth": list(tth), "eta": list(eta)})
     tilts = tilts[:-18]
+    big = (391, 120, 409)            # 0.2978 rad
+    for sy in (1, -1):
+        for sz in (1, -1, 0):
+            for sx in (0, 1):
+                t3 = ((big[0], sx * big[1], big[2]) if sx else Z, (big[0], sy * big[1], big[2]), (big[0], sz * big[1], big[2]) if sz else Z)
+                # the azimuths at which the ray meets the detector at the most grazing angle the quantifier allows (cosine of incidence
+                # down to 0.10), and a share of the others
+                def cosinc(eta_):
+                    ax, ay, az = [math.atan2(q_[1], q_[0]) for q_ in t3]
+                    cx, sx_, cy, sy_, cz, sz_ = math.cos(ax), math.sin(ax), math.cos(ay), math.sin(ay), math.cos(az), math.sin(az)
+                    n0 = (cy * cz, sz_, -sy_ * cz)                               # Ry.Rz e_x
+                    n_ = (n0[0], cx * n0[1] - sx_ * n0[2], sx_ * n0[1] + cx * n0[2])   # Rx on top
+                    c2, s2 = 33 / 65.0, 56 / 65.0
+                    se_, ce_ = eta_[1] / eta_[2], eta_[0] / eta_[2]
+                    return n_[0] * c2 - n_[1] * s2 * se_ + n_[2] * s2 * ce_
+                ranked = sorted(A, key=cosinc)
+                for eta in ranked[:3] + [e_ for e_ in ranked[3:] if rng.random() < (0.15 if tier == "quick" else 1.0)]:
+                    cases.append({"tx": list(t3[0]), "ty": list(t3[1]), "tz": list(t3[2]), "tth": [33, 56, 65], "eta": list(eta)})
     for tth in TTH:
         for eta in rng.sample(A, 14 if tier == "quick" else 30) + [(1, 0, 1)]:
             for (tx, ty, tz) in rng.sample(tilts, 10 if tier == "quick" else 60):
